@@ -125,6 +125,16 @@ def stale_task(args):
             continue
         raw = A.raw_of(objs["sticky"])
         ud = {m: objs["sticky"][m].encode() for m in subs}
+        if rng.random() < 0.5:
+            # ... or the newer generation's claims are lopsided (every topic wholly owned by ONE of its subscribers, as
+            # after subscriptions changed): several rounds of moves are needed to reach the balance
+            own = {m: {} for m in subs}
+            for t in topics:
+                cands = [m for m in sorted(subs) if t in subs[m]]
+                if cands and parts.get(t):
+                    own[rng.choice(cands)][t] = sorted(parts[t])
+            raw = {m: [[t, ps] for t, ps in sorted(own[m].items())] for m in subs}
+            ud = {m: A.encode_raw(raw[m]) for m in subs}
         gens = {m: 2 for m in subs}
         for b in rng.sample(sorted(subs), rng.randint(1, min(2, len(subs)))):
             others = [(t, p) for m in subs if m != b for t, ps in raw[m] for p in ps
@@ -143,6 +153,52 @@ def stale_task(args):
             "states": st, "gen": gen, "samples": cases[:1],
             "nontrivial": sum(1 for c in cases if A.assignable(c["parts"], c["subs"])),
             "ud": sum(1 for c in cases if "stickyud" in c["out"])}
+
+
+def chain3_task(args):
+    """Bounded-exhaustive family for the sticky balancing loop: three members whose subscriptions overlap in a chain
+    (A{x,y}, B{y,z}, D{x}), every size of x, y, z in a small range, every lopsided ownership reported by the newer
+    generation, and one member whose user data is a generation behind and claims 1..2 partitions now owned by a
+    neighbour.  Moves enable further moves here (give back to the previous owner, THEN rebalance the neighbour)."""
+    combos, cfg = args
+    cases = []
+    for nx, ny, nz, ox, oy, stale, j in combos:
+        parts = {"x": list(range(nx)), "y": list(range(ny))}
+        if nz:
+            parts["z"] = list(range(nz))
+        topics = sorted(parts)
+        subs = {"A": ["x", "y"], "B": ["y", "z"] if nz else ["y"], "D": ["x"]}
+        own = {"A": {}, "B": {}, "D": {}}
+        own[ox]["x"] = parts["x"]
+        own[oy]["y"] = parts["y"]
+        if nz:
+            own["B"]["z"] = parts["z"]
+        gens = {"A": 2, "B": 2, "D": 2}
+        raw = {m: [[t, ps] for t, ps in sorted(own[m].items())] for m in subs}
+        # the stale member claims the first j partitions of a topic it subscribes to and somebody else owns now
+        tgt = next((t for t in subs[stale] if t in parts and t not in own[stale]), None)
+        if tgt is None:
+            continue
+        mine = [[t, ps] for t, ps in raw[stale]]
+        raw_stale = sorted(mine + [[tgt, parts[tgt][:j]]])
+        ud = {m: A.encode_raw(raw[m]) for m in subs}
+        ud[stale] = A.encode_raw(raw_stale)
+        gens[stale] = 1
+        case, _ = A.assign_case(topics, parts, subs, enum=False, kinds=(), ud=ud, gen=gens,
+                                tag=f"chain3:{nx},{ny},{nz},{ox},{oy},{stale},{j}")
+        cases.append(case)
+    bad, st, gen = tlc.run_table("Assignors", cfg, cases, shard=4000, jobs=1, spec_dir=A.SPEC_DIR)
+    return {"n": len(cases), "evals": sum(len(c["out"]) + len(c["fail"]) for c in cases), "bad": [cases[k] for k in bad],
+            "states": st, "gen": gen, "samples": cases[:1], "nontrivial": len(cases),
+            "ud": sum(1 for c in cases if "stickyud" in c["out"])}
+
+
+def chain3_combos(quick):
+    mx = 6 if quick else 9
+    out = [(nx, ny, nz, ox, oy, stale, j)
+           for nx in range(1, mx + 1) for ny in range(1, mx) for nz in range(0, 3)
+           for ox in ("D", "A") for oy in ("A", "B") for stale in ("A", "B", "D") for j in (1, 2)]
+    return out
 
 
 def trigger_task(cfg):
@@ -165,6 +221,8 @@ def _task(a):
         return chain_task(payload)
     if kind == "stale":
         return stale_task(payload)
+    if kind == "chain3":
+        return chain3_task(payload)
     return trigger_task(payload)
 
 
@@ -232,6 +290,8 @@ def run(ctx) -> Report:
     nstale = 1400 if quick else 30000
     pers = max(50, nstale // 28)
     tasks += [("stale", (list(range(10**6 + o, 10**6 + min(o + pers, nstale))), cfg, sorted(avoid))) for o in range(0, nstale, pers)]
+    c3 = chain3_combos(quick)
+    tasks += [("chain3", (c3[o:o + 300], cfg)) for o in range(0, len(c3), 300)]
     tasks += [("trigger", cfg)]
     results = A.pool_map(_task, tasks, procs=10)
 
